@@ -343,3 +343,30 @@ def same_path_twice(model, payload):
         import shutil
 
         shutil.rmtree(d, ignore_errors=True)
+
+
+def overlap_sets(model, payload):
+    """non_terminal_leaves on path sets: the result is non-empty iff some path is a proper segment-prefix of another
+    (the root path '/' is a prefix of every other path), whatever the order and whatever characters the segments contain"""
+    import itertools
+    import random
+    from dds.structures_utils import FunctionInteractionsUtils as U
+
+    def segs(p):
+        return [x for x in p.split("/") if x != ""]
+
+    def spec(lst):
+        return any(p != q and len(segs(p)) < len(segs(q)) and segs(q)[: len(segs(p))] == segs(p) for p in lst for q in lst)
+
+    names = ["f", "g", "f.meta", "f-x", "f0", "fg", "f 1"]
+    paths = ["/"] + ["/" + a for a in names] + ["/%s/%s" % (a, b) for a in names[:4] for b in ("x", "f")] + ["/f/x/y", "/g/f/x"]
+    rnd = random.Random(0)
+    cases = [c for n in (1, 2) for c in itertools.permutations(paths, n)] + [tuple(rnd.sample(paths, rnd.choice((3, 4, 5)))) for _ in range(4000)]
+    for lst in cases:
+        try:
+            got = U.non_terminal_leaves(list(lst), None)
+        except BaseException as e:
+            return {"reproduced": True, "detail": "non_terminal_leaves(%s) raised %s" % (list(lst), type(e).__name__), "inputs": {"paths": list(lst)}}
+        if bool(got) != spec(lst):
+            return {"reproduced": True, "detail": "kept paths %s: reported %s although %s path is a proper prefix of another" % (list(lst), got, "a" if spec(lst) else "no"), "inputs": {"paths": list(lst)}}
+    return {"reproduced": False, "detail": "%d path lists agree with the prefix-overlap spec" % len(cases)}
